@@ -23,6 +23,7 @@ import (
 	"encoding/json"
 	"fmt"
 	"regexp"
+	"runtime"
 	"sort"
 	"strings"
 	"testing"
@@ -80,6 +81,12 @@ func mayHoldKey(cfg configB, p proxyB, names []string, ns, n string) bool {
 	}
 	if ns == p.VNS && authorised(cfg, p) {
 		return true
+	}
+	// a verified reference entitles to the secret it names; a reference with the -cacert suffix is a
+	// reference to a CA part (credentials.SdsCaSuffix: "the suffix of the sds resource name for root CA")
+	// and entitles to no key material at all
+	if strings.HasSuffix(n, "-cacert") {
+		return false
 	}
 	ref := "kubernetes-gateway://" + ns + "/" + n
 	return contains(names, ref) && contains(cfg.refsOf(p), ref)
@@ -561,6 +568,11 @@ func TestC11b(t *testing.T) {
 		perBlock[block]++
 		if !env.Mine(ord) {
 			return true
+		}
+		if res.Evaluations%4096 == 0 {
+			// every stack allocates four fresh XdsCache tables; on a machine where the collector is
+			// short of CPU a worker was seen to run into the address-space limit of the driver
+			runtime.GC()
 		}
 		if res.Evaluations%512 == 0 && env.Expired() {
 			res.Cap(fmt.Sprintf("deadline at ordinal %d (block %d)", ord, block))
